@@ -35,7 +35,7 @@ SMALL_PROGRAMS = [
     "#fn enabled() => 1\n#if enabled() == 1\n{\n#d8 1\n}\n#d8 2\n",
     "#fn base() => 0x100\n#bankdef a { #addr base(), #size 0x10, #outp 0 }\n#d8 1\n",
     "#fn two() => 2\nc = true\n#if c\n{\nx = two()\n}\ny = two\n#res two()\n#d8 x\n",
-    "#ruledef { ld {x} => 0x10 @ x`8 }\n#fn f(p) => p + $\nld f(1)\nl:\nld f(l)\n#align f(6)\n#d8 3\n",
+    "#ruledef\n{\n    ld {x} => 0x10 @ x`8\n}\n#fn f(p) => p + $\nld f(1)\nl:\nld f(l)\n#align f(6)\n#d8 3\n",
 ]
 
 
